@@ -173,34 +173,63 @@ def r1(ctx):
     if need(ctx, P, rule, HASH_TREE, fa):
         ups = updates(fa)
         loops = fa.loops()
-        good = len(ups) == 4 and loops
+        good = len(ups) in (3, 4) and loops
         why = "%d update calls, %d loops" % (len(ups), len(loops))
         if good:
             body = max(loops, key=lambda l: len(l[1]))[1]
             a = [fa.arg_origin(s, 1) for s in ups]
-            cs, srcs = closure_seq(ctx, a[2], fa)
-            r2, r3 = strip(a[2]), strip(a[3])
-            rng2 = term_sig(r2[3][1]) if r2[0] == "call" else ""
-            rng3 = term_sig(r3[3][1]) if r3[0] == "call" else ""
+            # the pieces fed after the node hash must be the whole encoded buffer, in order — however
+            # it is cut: [..k] + [k..], split_at(k), chunks(n) fed in a loop, or the buffer itself
+            buf, cut = None, "?"
+            p = [strip(x) for x in a[2:]]
+            def idx(t_, kind):
+                if t_[0] == "call" and t_[2].split("::")[-1] == "index" and len(t_[3]) == 2 and is_agg(t_[3][1]) and t_[3][1][1].split("::")[-1] == kind:
+                    return t_[3][0], ev(ctx, t_[3][1][3][0][1])
+                return None, None
+            if len(p) == 2:
+                b1, k1 = idx(p[0], "RangeTo")
+                b2, k2 = idx(p[1], "RangeFrom")
+                if b1 is not None and b2 is not None and term_sig(b1) == term_sig(b2) and k1 == k2 and k1 is not None:
+                    buf, cut = b1, "[..%d] + [%d..]" % (k1, k2)
+                elif p[0][0] == "field" and p[1][0] == "field" and (p[0][2], p[1][2]) == ("0", "1") and p[0][1] == p[1][1] and strip(p[0][1])[0] == "call" and strip(p[0][1])[2].split("::")[-1] == "split_at":
+                    buf, cut = strip(p[0][1])[3][0], "split_at(%s)" % term_str(strip(p[0][1])[3][1])
+            elif len(p) == 1:
+                q = p[0]
+                if q[0] == "call" and q[2].split("::")[-1] == "next" and q[3] and strip(q[3][0])[0] == "call" and strip(q[3][0])[2].split("::")[-1] in ("chunks", "chunks_exact"):
+                    ch = strip(q[3][0])
+                    if every_element_reaches(fa, q[1], ups[2]):
+                        buf, cut = ch[3][0], "every chunk of chunks(%s)" % term_str(ch[3][1])
+                else:
+                    buf, cut = q, "whole buffer"
+            cs, srcs = closure_seq(ctx, buf, fa) if buf is not None else (None, None)
             hs = strip(a[1])
             node = term_sig(hs[3][0]) if hs[0] == "call" and hs[3] else "?"
             good = (strip(a[0]) == ("const", "crypto::hash::ROOT_TYPE") and ups[0] not in body and all(u in body for u in ups[1:])
                     and hs[0] == "call" and hs[2].endswith("::hash") and "next(roots)" in term_sig(hs)
                     and cs in ([(("fixedle", 8), "as_fixed_width(index(node))"), (("fixedle", 8), "as_fixed_width(len(node))")],
                                [(("fixedle", 8), "as_fixed_width(index(%s))" % node), (("fixedle", 8), "as_fixed_width(len(%s))" % node)])
-                    and rng2 == "RangeTo::RangeTo{end: 8}" and rng3 == "RangeFrom::RangeFrom{start: 8}"
-                    and fa.dominates(ups[1], ups[2]) and fa.dominates(ups[2], ups[3]))
-            why = "type %s; per root: %s, %s[%s], [%s]" % (term_str(a[0])[:20], term_sig(hs)[:40], cs, rng2, rng3)
+                    and all(fa.dominates(x, y) or (y in body and x in body and len(p) == 1) for x, y in zip(ups[1:], ups[2:])))
+            why = "type %s; per root: %s, then %s of %s" % (term_str(a[0])[:20], term_sig(hs)[:40], cut, cs)
         ctx.check(P, rule, "tree pre-image = [ROOT_TYPE] then per root [hash][u64le index][u64le length]", good, "type byte once, then hash, index, length for every root in order", "Hash::tree feeds %s" % why, key="C05|C05.R1|Hash::tree|pre-image")
         it = [s for s in sites(fa, "std::iter::Iterator::next")]
-        if it and len(ups) == 4 and loops:
+        it = [s for s in it if "roots" in term_str(fa.arg_origin(s, 0))]
+        if it and len(ups) in (3, 4) and loops:
             # every root obtained from the iterator is hashed: no path from `Some(node)` back to the
             # next iteration (or out of the loop) avoids the three updates
             sw = [x for x in switch_edges_on(fa, lambda o: o[0] == "disc" and it[0] in call_root_bb(o[1]))]
             skip = True
             if sw:
                 some_t = sw[0][2].get(1)
-                skip = some_t is None or any(fa.can_reach(some_t, it[0], avoiding=[u]) for u in ups[1:])
+                def must(u):
+                    # an update inside an inner loop (chunks fed one by one): the inner loop's own
+                    # driving next() is what every root has to pass
+                    for h_, lb_, _ in loops:
+                        if u in lb_ and it[0] not in lb_:
+                            nx = [x for x in sites(fa, "std::iter::Iterator::next") if x in lb_]
+                            if nx:
+                                return nx[0]
+                    return u
+                skip = some_t is None or any(fa.can_reach(some_t, it[0], avoiding=[must(u)]) for u in ups[1:])
             ctx.check(P, rule, "every root contributes to the tree hash", not skip, "each iteration performs the three updates unconditionally",
                       "Hash::tree can move on to the next root (or finish) without hashing the current one: a conditional skip inside the per-root loop changes the signed root hash for some root sets",
                       [site_desc(fa, it[0])], key="C05|C05.R1|Hash::tree|root skipped")
@@ -338,6 +367,11 @@ def r7(ctx):
         seen.append("%s(%s, %s)" % (op, sa[:40], sb[:40]))
         if op in ("Le", "Eq", "Lt") and sa == "len(%s)" % base and "enumerate" in sb:
             ok = True
+    if not ok:
+        # the same trim spelled with the std call: roots.truncate(i) leaves len(roots) <= i
+        for ts, tt in fa.calls():
+            if (tt.get("callee") or "").endswith("Vec::<T, A>::truncate") and fa.dominates(ts, s) and term_sig_(fa.arg_origin(ts, 0)) == base and "enumerate" in term_sig_(fa.arg_origin(ts, 1)):
+                ok = True
     ctx.check(P, rule, "the replacement root is pushed at its own position", ok, "push dominated by the exit of `while roots.len() > i { roots.pop() }`",
               "MerkleTree::truncate pushes the root for position i where `roots.len() <= i` is not established (facts: %s): stale roots after the first differing position survive, so the root set after replay — and every later root hash and signature — is not the prescribed one" % seen[:4],
               [site_desc(fa, s)], key="C05|C05.R7|truncate|push position")
